@@ -230,6 +230,29 @@ impl CellWrite for Recorder {
     }
 }
 
+/// does the parameter string contain 7 / 27 / 39 / 49 as a parameter of its own (not as an argument of
+/// a semicolon-form 38 / 48 / 58 colour specification)?
+fn sgr_has_inexpressible(p: &str) -> bool {
+    let groups: Vec<&str> = p.split(';').collect();
+    let mut i = 0;
+    while i < groups.len() {
+        let g = groups[i];
+        if matches!(g.trim_start_matches('0'), "38" | "48" | "58") {
+            match groups.get(i + 1).map(|x| x.trim_start_matches('0')) {
+                Some("5") => i += 3,
+                Some("2") => i += 5,
+                _ => i += 1,
+            }
+            continue;
+        }
+        if matches!(g.trim_start_matches('0'), "7" | "27" | "39" | "49") {
+            return true;
+        }
+        i += 1;
+    }
+    false
+}
+
 fn cuts_of(v: &Value) -> Vec<usize> {
     vusizes(&v["cuts"])
 }
@@ -398,7 +421,14 @@ pub fn run(input: &Value) -> Case {
             j["impl"] = json!(cells.iter().map(|(c, f)| json!([c, j_face(f)])).collect::<Vec<_>>());
             let nsgr = input["hist"].as_array().map(|a| a.iter().filter(|h| h["sgr"].is_string()).count()).unwrap_or(0);
             tags.push(format!("sgr_seqs={}", nsgr.min(10)));
-            if input["inexpressible"].as_bool().unwrap_or(false) || input["known_class"].is_array() {
+            // known class derived from the content, never taken from the input file: some SGR item has
+            // 7 / 27 / 39 / 49 as a parameter of its own
+            if let Some(o) = j.as_object_mut() {
+                o.remove("known_class");
+            }
+            let inexpr = input["hist"].as_array().map(|a| a.iter().any(|h| h["sgr"].as_str().map(sgr_has_inexpressible).unwrap_or(false))).unwrap_or(false);
+            if inexpr {
+                j["known_class"] = json!(["sgr-inexpressible"]);
                 tags.push("inexpressible-param".into());
             }
             if input["malformed"].as_bool().unwrap_or(false) {
@@ -743,6 +773,11 @@ pub fn generate(rng: &mut Rng, n: usize, tier: &str) -> Vec<Value> {
             v.push(json!({"kind": "write", "f0": plain, "hist": [{"sgr": format!("{}", base + k)}, {"text": [121]}], "cuts": []}));
         }
     }
+    // ESC and the C1 introducers (written as U+FFFD) with their neighbours, alone and inside a stream
+    for c in [26u64, 27, 28, 0x8f, 0x90, 0x91, 0x98, 0x9a, 0x9b, 0x9c, 0x9d, 0x9e, 0x9f, 0xa0, 0xfffd] {
+        v.push(json!({"kind": "char", "c": c, "gs": [], "cuts": []}));
+        v.push(json!({"kind": "stream", "cmds": [{"m": g_modify(rng, 30)}, {"c": c}, {"c": 65}, {"face": g_face(rng)}, {"c": c}], "cuts": []}));
+    }
     let fixed = v.len();
     // 6. random part
     while v.len() < fixed + n {
@@ -757,6 +792,7 @@ pub fn generate(rng: &mut Rng, n: usize, tier: &str) -> Vec<Value> {
                         1 => json!({"m": g_modify(rng, 30)}),
                         2 => json!({"m": empty_modify()}),
                         3 => json!({"m": g_modify(rng, 10)}),
+                        4 if rng.chance(1, 4) => json!({"c": *rng.pick(&[27u64, 0x90, 0x98, 0x9b, 0x9d, 0x9e, 0x9f])}),
                         _ => json!({"c": g_text(rng)[0]}),
                     });
                 }
@@ -766,13 +802,8 @@ pub fn generate(rng: &mut Rng, n: usize, tier: &str) -> Vec<Value> {
                 v.push(json!({"kind": "stream", "cmds": cmds, "cuts": rand_cuts(rng, len)}));
             }
             12 => {
-                // a random character through the encoder (27 excluded: not in the property's domain)
-                let c = loop {
-                    let c = g_text(rng)[0];
-                    if c != 27 {
-                        break c;
-                    }
-                };
+                // a random character through the encoder
+                let c = g_text(rng)[0];
                 v.push(json!({"kind": "char", "c": c, "gs": [], "cuts": rand_cuts(rng, 4)}));
             }
             0 => {
@@ -799,9 +830,7 @@ pub fn generate(rng: &mut Rng, n: usize, tier: &str) -> Vec<Value> {
                 let (hist, known) = g_hist(rng, true, sink == 2);
                 let len = hist_bytes(&hist).len();
                 let mut c = json!({"kind": "write", "f0": g_face(rng), "hist": hist, "cuts": rand_cuts(rng, len), "malformed": true, "sink": if sink == 2 { 2 } else { sink % 2 }});
-                if known {
-                    c["known_class"] = json!(["sgr-inexpressible"]);
-                }
+                let _ = known; // the class tag is derived in `run` from the history itself
                 v.push(c);
             }
             _ => {
@@ -810,9 +839,7 @@ pub fn generate(rng: &mut Rng, n: usize, tier: &str) -> Vec<Value> {
                 let len = hist_bytes(&hist).len();
                 let f0 = if rng.chance(1, 2) { json!({"fg": null, "bg": null, "ul": 0, "flags": 0}) } else { g_face(rng) };
                 let mut c = json!({"kind": "write", "f0": f0, "hist": hist, "cuts": rand_cuts(rng, len), "sink": sink});
-                if known {
-                    c["known_class"] = json!(["sgr-inexpressible"]);
-                }
+                let _ = known; // the class tag is derived in `run` from the history itself
                 v.push(c);
             }
         }
